@@ -65,19 +65,24 @@ CondBad(f, dnf) == \E o \in CondRefs(dnf) : o.k = "col" /\ (Missing(f, o) \/ Amb
 
 NullRow(n) == [i \in 1..n |-> Null]
 
-\* one join step; the result is a bag (sequence in no particular order)
+\* concatenation of a sequence of sequences
+RECURSIVE FlattenFrom(_, _)
+FlattenFrom(ss, i) == IF i > Len(ss) THEN <<>> ELSE ss[i] \o FlattenFrom(ss, i + 1)
+
+\* one join step, rows in the order the engine's nested loops produce them (the order matters only where
+\* the code's own order-dependence is to be recognised; results are compared as bags)
 JoinStep(jt, L, R, on) ==
   LET f == L.f \o R.f
       nl == Len(L.rows)
       nr == Len(R.rows)
-      hit == {p \in (1..nl) \X (1..nr) : CondHolds(f, L.rows[p[1]] \o R.rows[p[2]], on)}
-      matched == [p \in hit |-> L.rows[p[1]] \o R.rows[p[2]]]
-      lonely == IF jt = "left" THEN {i \in 1..nl : ~\E j \in 1..nr : <<i, j>> \in hit}
-                ELSE IF jt = "right" THEN {j \in 1..nr : ~\E i \in 1..nl : <<i, j>> \in hit} ELSE {}
-      pad(i) == IF jt = "left" THEN L.rows[i] \o NullRow(Len(R.f)) ELSE NullRow(Len(L.f)) \o R.rows[i]
-      hs == SetToSeq(hit)
-      ls == SetToSeq(lonely)
-  IN [f |-> f, rows |-> [i \in 1..Len(hs) |-> matched[hs[i]]] \o [i \in 1..Len(ls) |-> pad(ls[i])]]
+      Hit(i, j) == CondHolds(f, L.rows[i] \o R.rows[j], on)
+      ForL(i) == LET ms == SelectSeq([j \in 1..nr |-> j], LAMBDA j : Hit(i, j))
+                 IN IF ms = <<>> /\ jt = "left" THEN << L.rows[i] \o NullRow(Len(R.f)) >>
+                    ELSE [m \in 1..Len(ms) |-> L.rows[i] \o R.rows[ms[m]]]
+      ForR(j) == LET ms == SelectSeq([i \in 1..nl |-> i], LAMBDA i : Hit(i, j))
+                 IN IF ms = <<>> THEN << NullRow(Len(L.f)) \o R.rows[j] >>
+                    ELSE [m \in 1..Len(ms) |-> L.rows[ms[m]] \o R.rows[j]]
+  IN [f |-> f, rows |-> IF jt = "right" THEN FlattenFrom([j \in 1..nr |-> ForR(j)], 1) ELSE FlattenFrom([i \in 1..nl |-> ForL(i)], 1)]
 
 RECURSIVE FromFold(_, _, _, _)
 FromFold(db, from, i, acc) ==
@@ -136,14 +141,24 @@ NonNull(vs) == SelectSeq(vs, LAMBDA x : x.t # "n")
 AvgOK(x, ints) == LET n == Len(ints) s == SumOf(ints) d == 2 * (x * n - s) IN
                   IF n = 0 THEN x = 0 ELSE d <= n /\ -d <= n
 
-\* is `out` (a result row) right for the group with members ms?
-AggRowOK(f, ms, q, out) ==
+\* the code as found keeps a mean that is re-rounded after every row (known finding avg-running-rounding):
+\* what it returns for the values in scan order (non-negative integers)
+RECURSIVE RunAvgFrom(_, _, _)
+RunAvgFrom(ints, i, m) == IF i > Len(ints) THEN m
+                          ELSE RunAvgFrom(ints, i + 1, (2 * (m * (i - 1) + ints[i]) + i) \div (2 * i))
+RunAvg(ints) == RunAvgFrom(ints, 1, 0)
+
+\* is `out` (a result row) right for the group with members ms?  running = TRUE: "right" with AVG read as the
+\* running rounded mean, which recognises the known finding and nothing else
+AggRowOKm(f, ms, q, out, running) ==
   \A i \in 1..Len(q.list) :
     LET it == q.list[i] IN
     CASE it.k = "col" -> ms # <<>> /\ out[i] = ms[1][Idx(f, it.ref)]
       [] it.k = "count" -> out[i] = IntV(Len(ms))
       [] it.k = "countcol" -> out[i] = IntV(Len(NonNull(ColVals(f, ms, it.ref))))
-      [] it.k = "avg" -> out[i].t = "i" /\ AvgOK(out[i].v, [j \in 1..Len(ms) |-> ms[j][Idx(f, it.ref)].v])
+      [] it.k = "avg" -> /\ out[i].t = "i"
+                         /\ LET ints == [j \in 1..Len(ms) |-> ms[j][Idx(f, it.ref)].v] IN
+                            IF running THEN out[i].v = RunAvg(ints) ELSE AvgOK(out[i].v, ints)
       [] it.k = "cmp" -> TRUE
 
 -----------------------------------------------------------------------------
@@ -195,7 +210,7 @@ MustFail(db, q) ==
   \/ (q.where # <<>> /\ CondBad(rel.f, q.where))
   \/ (~IsStar(q) /\ ListBad(rel.f, q))
 
-ResultOK(db, q, res) ==
+ResultOKm(db, q, res, running) ==
   IF MustFail(db, q) THEN res.err ELSE
   LET rel == FromRel(db, q)
       f == rel.f
@@ -208,12 +223,12 @@ ResultOK(db, q, res) ==
               \* one row for the whole input, all zeros when it is empty
               /\ Len(res.rows) = 1
               /\ IF kept = <<>> THEN \A i \in 1..Len(q.list) : IsAgg(q.list[i]) => res.rows[1][i] = IntV(0)
-                 ELSE AggRowOK(f, kept, q, res.rows[1])
+                 ELSE AggRowOKm(f, kept, q, res.rows[1], running)
            ELSE LET gs == Groups(f, kept, q) IN
               /\ Len(res.rows) = Cardinality(gs)                       \* exactly one row per distinct combination
               /\ \A key \in gs : \E r \in 1..Len(res.rows) :
                     /\ [j \in 1..Len(q.group) |-> res.rows[r][GroupIdx(q)[j]]] = key
-                    /\ AggRowOK(f, Members(f, kept, q, key), q, res.rows[r])
+                    /\ AggRowOKm(f, Members(f, kept, q, key), q, res.rows[r], running)
      ELSE IF q.order # <<>> /\ OrderBad(of, q) THEN res.err ELSE
         LET cand == [i \in 1..Len(kept) |-> ProjRow(f, kept[i], q)] IN
         /\ ~res.err
@@ -224,4 +239,7 @@ ResultOK(db, q, res) ==
               ELSE IF q.limit < 0 /\ q.offset < 0 THEN IsSameBag(res.rows, cand)  \* a join is a multiset
               ELSE Len(res.rows) = Len(OffLim(cand, q)) /\ IsSubBag(res.rows, cand)
            ELSE WindowOK(of, cand, q, res.rows)
+ResultOK(db, q, res) == ResultOKm(db, q, res, FALSE)
+\* wrong, and exactly as the running rounded mean predicts (groups, counts and everything else right)
+KnownRunningAvg(db, q, res) == ~ResultOK(db, q, res) /\ HasAgg(q) /\ ResultOKm(db, q, res, TRUE)
 =============================================================================
